@@ -161,8 +161,12 @@ Definition dec_wf {A} (c : codec A) : Prop :=
 Definition dec_min {A} (c : codec A) : Prop :=
   forall bs a rest, dec c bs = Some (a, rest) -> lenN rest + minlen c <= lenN bs.
 
+(** a decode consumes exactly as many bytes as the value's encoding has *)
+Definition dec_len {A} (c : codec A) : Prop :=
+  forall bs a rest, dec c bs = Some (a, rest) -> lenN bs = lenN (enc c a) + lenN rest.
+
 Record good {A} (c : codec A) : Prop := mkGood {
-  g_ok : codec_ok c; g_wf : dec_wf c; g_min : dec_min c }.
+  g_ok : codec_ok c; g_wf : dec_wf c; g_min : dec_min c; g_len : dec_len c }.
 
 (** * Lemmas *)
 
@@ -246,6 +250,8 @@ Proof.
     cbn [wfb uint]. apply N.ltb_lt, B.
   - intros bs v r H. apply uint_dec_some in H. destruct H as (a & -> & L & _ & _).
     cbn [minlen uint]. rewrite lenN_app. lia.
+  - intros bs v r H. apply uint_dec_some in H. destruct H as (a & -> & L & _ & _).
+    cbn [enc uint]. rewrite lenN_app, be_put_lenN. lia.
 Qed.
 
 Lemma fixed_good : forall n, good (fixed n).
@@ -256,6 +262,8 @@ Proof.
   - intros bs a r H. cbn [dec fixed] in H. apply takeN_some in H. cbn [wfb fixed]. apply N.eqb_eq, H.
   - intros bs a r H. cbn [dec fixed] in H. apply takeN_some in H. destruct H as [-> L].
     cbn [minlen fixed]. rewrite lenN_app. lia.
+  - intros bs a r H. cbn [dec fixed] in H. apply takeN_some in H. destruct H as [-> L].
+    cbn [enc fixed]. apply lenN_app.
 Qed.
 
 Lemma boolc_good : good boolc.
@@ -265,6 +273,8 @@ Proof.
   - intros bs a r _. reflexivity.
   - intros bs a r H. cbn [dec boolc] in H. destruct bs as [|x bs]; [discriminate|].
     injection H as _ <-. cbn [minlen boolc lenN]. lia.
+  - intros bs a r H. cbn [dec boolc] in H. destruct bs as [|x bs]; [discriminate|].
+    injection H as _ <-. cbn [enc boolc lenN]. lia.
 Qed.
 
 Lemma lpbytes_good : forall w, good (lpbytes w).
@@ -280,11 +290,15 @@ Proof.
     destruct (dec (uint w) bs) as [[n r']|] eqn:D; [|discriminate].
     apply uint_dec_some in D. destruct D as (p & -> & Lp & _ & _).
     apply takeN_some in H. destruct H as [-> L]. cbn [minlen lpbytes]. rewrite !lenN_app. lia.
+  - intros bs a r H. cbn [dec lpbytes] in H.
+    destruct (dec (uint w) bs) as [[n r']|] eqn:D; [|discriminate].
+    apply uint_dec_some in D. destruct D as (p & -> & Lp & _ & _).
+    apply takeN_some in H. destruct H as [-> L]. cbn [enc lpbytes]. rewrite !lenN_app, be_put_lenN. lia.
 Qed.
 
 Lemma pairc_good : forall {A B} (ca : codec A) (cb : codec B), good ca -> good cb -> good (ca ** cb).
 Proof.
-  intros A B ca cb [oa wa ma] [ob wb mb]. split.
+  intros A B ca cb [oa wa ma la] [ob wb mb lb]. split.
   - intros [a b] rest H. cbn [wfb pairc fst snd] in H. apply andb_prop in H. destruct H as [Ha Hb].
     cbn [enc dec pairc fst snd]. rewrite <- app_assoc, (oa a _ Ha), (ob b _ Hb). reflexivity.
   - intros bs [a b] r H. cbn [dec pairc] in H.
@@ -295,12 +309,16 @@ Proof.
     destruct (dec ca bs) as [[a' r1]|] eqn:Da; [|discriminate].
     destruct (dec cb r1) as [[b' r2]|] eqn:Db; [|discriminate].
     injection H as <- <- <-. apply ma in Da. apply mb in Db. cbn [minlen pairc]. lia.
+  - intros bs [a b] r H. cbn [dec pairc] in H.
+    destruct (dec ca bs) as [[a' r1]|] eqn:Da; [|discriminate].
+    destruct (dec cb r1) as [[b' r2]|] eqn:Db; [|discriminate].
+    injection H as <- <- <-. apply la in Da. apply lb in Db. cbn [enc pairc fst snd]. rewrite lenN_app. lia.
 Qed.
 
 Lemma depc_good : forall {A B} (ca : codec A) (cb : A -> codec B) m,
   good ca -> (forall a, good (cb a)) -> (forall a, m <= minlen (cb a)) -> good (depc ca cb m).
 Proof.
-  intros A B ca cb m [oa wa ma] G M. split.
+  intros A B ca cb m [oa wa ma la] G M. split.
   - intros [a b] rest H. cbn [wfb depc fst snd] in H. apply andb_prop in H. destruct H as [Ha Hb].
     cbn [enc dec depc fst snd]. rewrite <- app_assoc, (oa a _ Ha), (g_ok _ (G a) b _ Hb). reflexivity.
   - intros bs [a b] r H. cbn [dec depc] in H.
@@ -312,6 +330,11 @@ Proof.
     destruct (dec (cb a') r1) as [[b' r2]|] eqn:Db; [|discriminate].
     injection H as <- <- <-. apply ma in Da. apply (g_min _ (G a')) in Db. specialize (M a').
     cbn [minlen depc]. lia.
+  - intros bs [a b] r H. cbn [dec depc] in H.
+    destruct (dec ca bs) as [[a' r1]|] eqn:Da; [|discriminate].
+    destruct (dec (cb a') r1) as [[b' r2]|] eqn:Db; [|discriminate].
+    injection H as <- <- <-. apply la in Da. apply (g_len _ (G a')) in Db.
+    cbn [enc depc fst snd]. rewrite lenN_app. lia.
 Qed.
 
 Lemma dec_many_app : forall {A} (c : codec A), codec_ok c -> forall l rest,
@@ -323,39 +346,45 @@ Proof.
   cbn [length map concat dec_many]. rewrite <- app_assoc, (ok x _ Hx), (IH _ Hl). reflexivity.
 Qed.
 
-Lemma dec_many_some : forall {A} (c : codec A), dec_wf c -> dec_min c -> forall n bs l r,
+Lemma dec_many_some : forall {A} (c : codec A), dec_wf c -> dec_len c -> forall n bs l r,
   dec_many (dec c) n bs = Some (l, r) ->
-  length l = n /\ forallb (wfb c) l = true /\ lenN r <= lenN bs.
+  length l = n /\ forallb (wfb c) l = true /\ lenN bs = lenN (concat (map (enc c) l)) + lenN r.
 Proof.
-  intros A c wf mn. induction n as [|n IH]; intros bs l r H; cbn [dec_many] in H.
-  - injection H as <- <-. repeat split; lia.
+  intros A c wf ln. induction n as [|n IH]; intros bs l r H; cbn [dec_many] in H.
+  - injection H as <- <-. repeat split; cbn; lia.
   - destruct (dec c bs) as [[a r1]|] eqn:Da; [|discriminate].
     destruct (dec_many (dec c) n r1) as [[l' r2]|] eqn:Dl; [|discriminate].
     injection H as <- <-. apply IH in Dl. destruct Dl as (L & F & R).
-    cbn [length forallb]. rewrite (wf _ _ _ Da), F. apply mn in Da. repeat split; lia.
+    cbn [length forallb map concat]. rewrite (wf _ _ _ Da), F. apply ln in Da.
+    rewrite lenN_app. repeat split; lia.
 Qed.
 
 Lemma listc_good : forall {A} w (c : codec A), good c -> good (listc w c).
 Proof.
-  intros A w c [ok wf mn]. split.
+  intros A w c [ok wf mn ln]. split.
   - intros l rest H. cbn [wfb listc] in H. apply andb_prop in H. destruct H as [Hn Hl].
     apply N.ltb_lt in Hn. cbn [enc dec listc]. rewrite <- app_assoc, uint_dec_app by exact Hn.
     rewrite lenN_length, Nat2N.id. apply dec_many_app; assumption.
   - intros bs l r H. cbn [dec listc] in H.
     destruct (dec (uint w) bs) as [[n r1]|] eqn:D; [|discriminate].
     apply uint_dec_some in D. destruct D as (_ & _ & _ & _ & B).
-    apply (dec_many_some c wf mn) in H. destruct H as (L & F & _).
+    apply (dec_many_some c wf ln) in H. destruct H as (L & F & _).
     cbn [wfb listc]. rewrite F, andb_true_r. apply N.ltb_lt. rewrite lenN_length, L. lia.
   - intros bs l r H. cbn [dec listc] in H.
     destruct (dec (uint w) bs) as [[n r1]|] eqn:D; [|discriminate].
     apply uint_dec_some in D. destruct D as (p & -> & Lp & _ & _).
-    apply (dec_many_some c wf mn) in H. destruct H as (_ & _ & R).
+    apply (dec_many_some c wf ln) in H. destruct H as (_ & _ & R).
     cbn [minlen listc]. rewrite lenN_app. lia.
+  - intros bs l r H. cbn [dec listc] in H.
+    destruct (dec (uint w) bs) as [[n r1]|] eqn:D; [|discriminate].
+    apply uint_dec_some in D. destruct D as (p & -> & Lp & _ & _).
+    apply (dec_many_some c wf ln) in H. destruct H as (_ & _ & R).
+    cbn [enc listc]. rewrite !lenN_app, be_put_lenN. lia.
 Qed.
 
 Lemma failc_good : forall {A}, good (@failc A).
 Proof.
-  intros A. split; [intros a rest H; discriminate H | intros bs a r H; discriminate H | intros bs a r H; discriminate H].
+  intros A. split; [intros a rest H; discriminate H | intros bs a r H; discriminate H | intros bs a r H; discriminate H | intros bs a r H; discriminate H].
 Qed.
 
 (** a length function may only look at the bytes it announces: extending or
@@ -375,6 +404,8 @@ Proof.
     rewrite (cut _ _ _ P) by lia. apply N.eqb_eq. lia.
   - intros bs a r H. cbn [dec rawc] in H. destruct (plen bs) as [n|] eqn:P; [|discriminate].
     apply takeN_some in H. destruct H as [-> L]. apply lo in P. cbn [minlen rawc]. rewrite lenN_app. lia.
+  - intros bs a r H. cbn [dec rawc] in H. destruct (plen bs) as [n|] eqn:P; [|discriminate].
+    apply takeN_some in H. destruct H as [-> L]. cbn [enc rawc]. apply lenN_app.
 Qed.
 
 (** ** Top-level decoders *)
@@ -382,7 +413,7 @@ Qed.
 Lemma decode_top_roundtrip : forall {A} (c : codec A) min a,
   good c -> min <= minlen c -> wfb c a = true -> decode_top min c (enc c a) = Some a.
 Proof.
-  intros A c min a [ok wf mn] Hmin Ha. unfold decode_top.
+  intros A c min a [ok wf mn ln] Hmin Ha. unfold decode_top.
   pose proof (ok a [] Ha) as D. rewrite app_nil_r in D.
   pose proof (mn _ _ _ D) as L. cbn [lenN] in L.
   destruct (lenN (enc c a) <? min) eqn:E; [lia|]. rewrite D. reflexivity.
@@ -392,7 +423,7 @@ Qed.
 Lemma decode_top_trailing : forall {A} (c : codec A) min a rest,
   good c -> min <= minlen c -> wfb c a = true -> decode_top min c (enc c a ++ rest) = Some a.
 Proof.
-  intros A c min a rest [ok wf mn] Hmin Ha. unfold decode_top.
+  intros A c min a rest [ok wf mn ln] Hmin Ha. unfold decode_top.
   pose proof (ok a rest Ha) as D. pose proof (mn _ _ _ D) as L.
   destruct (lenN (enc c a ++ rest) <? min) eqn:E; [lia|]. rewrite D. reflexivity.
 Qed.
@@ -406,6 +437,16 @@ Proof.
   destruct (lenN b <? min); [discriminate|].
   destruct (dec c b) as [[a' r]|] eqn:D; [|discriminate]. injection H as <-.
   pose proof (g_wf c G _ _ _ D) as W. split; [exact W|]. apply decode_top_roundtrip; assumption.
+Qed.
+
+(** the re-encoding of a decoded message is never longer than the input *)
+Lemma decode_top_len : forall {A} (c : codec A) min b a,
+  good c -> decode_top min c b = Some a -> lenN (enc c a) <= lenN b.
+Proof.
+  intros A c min b a G H. unfold decode_top in H.
+  destruct (lenN b <? min); [discriminate|].
+  destruct (dec c b) as [[a' r]|] eqn:D; [|discriminate]. injection H as <-.
+  apply (g_len c G) in D. lia.
 Qed.
 
 (** ** firstN *)
